@@ -6,7 +6,7 @@
    event table [evs] the reader uses; n over ALL truncation lengths. *)
 From Coq Require Import NArith List Bool.
 Import ListNotations.
-Require Import UV.C12.Model UV.C12.Proofs.
+Require Import UV.C12.Model UV.C12.Proofs UV.C12.Lines.
 
 (* The code as it is, under the exact guard: outside the defect class the reader reports exactly
    the records that are completely present in the first n bytes and then ends (end of data, or the
@@ -96,3 +96,32 @@ Theorem C12_guard_non_vacuous :
   defect_cut false w_rs 40 = true /\ length (enc w_rs) = 48.
 Proof. exact guard_non_vacuous. Qed.
 Print Assumptions C12_guard_non_vacuous.
+
+(* Text files (task.txt, info lines, .map, .sym) are read by getline()/fgets() loops.  For EVERY file made of
+   '\n'-terminated lines and EVERY truncation length the loop sees exactly the complete lines inside the prefix, in
+   order, followed - if the cut is inside a line - by the unterminated rest, which is a prefix of the next line. *)
+Theorem C12_text_lines : forall ls n, forallb no_nl ls = true ->
+  getlines (firstn n (text_of ls)) = expected_lines ls n.
+Proof. exact getlines_prefix. Qed.
+Print Assumptions C12_text_lines.
+
+Theorem C12_text_cut_structure : forall ls n c p, cut_lines ls n = (c, p) ->
+  c = firstn (length c) ls /\
+  (p = [] \/ exists l, nth_error ls (length c) = Some l /\ p = firstn (length p) l).
+Proof. exact cut_lines_structure. Qed.
+Print Assumptions C12_text_cut_structure.
+
+(* Hence any reader that parses line by line and stops at the first rejected line yields, on the prefix, the entries
+   of the complete lines and then - only if all were accepted - whatever its line parser makes of the unterminated
+   rest (partial: what the C line parsers make of such a rest is not modelled; observed: accepted when it still scans). *)
+Theorem C12_text_files_partial : forall (E : Type) (parse : bytes -> option E) ls n, forallb no_nl ls = true ->
+  read_text parse (firstn n (text_of ls)) =
+  let '(c, p) := cut_lines ls n in
+  let '(es, ok) := parse_lines parse (map addnl c) in
+  if ok then match p with
+             | [] => (es, true)
+             | _ => match parse p with Some e => (es ++ [e], true) | None => (es, false) end
+             end
+  else (es, false).
+Proof. exact @read_text_prefix. Qed.
+Print Assumptions C12_text_files_partial.
